@@ -30,7 +30,7 @@ def tla_seq(xs):
 PAT_ALPHA4 = ["a", "?", "*", "[", "]", "!", "^", "-"]
 SUBJ_ALPHA4 = ["a", "]", "?", "!", "^", "-"]
 ROOTS4 = [["["], ["[", "!"], ["[", "^"], ["[", "]"], ["[", "!", "]"], ["[", "^", "]"], ["[", "\\"], ["[", "!", "\\"], ["[", "a", "-"], ["[", "!", "-"],
-          ["[", "]", "-"], ["[", "[", ":"], ["[", "!", "!"], ["[", "^", "^"], ["[", "!", "^"]]
+          ["[", "]", "-"], ["[", "a", "\\", "-"], ["[", "\\", "-"], ["[", "[", ":"], ["[", "!", "!"], ["[", "^", "^"], ["[", "!", "^"]]
 
 
 # fifth family: character classes inside bracket expressions (composite symbols, see Pattern.tla)
@@ -142,6 +142,8 @@ def run(R):
     sizes = []
     n, s = family(R, PAT_ALPHA4, SUBJ_ALPHA4, 5 if R.tier == "quick" else 6, 2, "c12d", roots=ROOTS4)
     sizes.append(dict(family="c12d (bracket openings)", patterns=n, subjects=s, max_pattern_len=5 if R.tier == "quick" else 6, max_subject_len=2))
+    n, s = family(R, PAT_ALPHA4, SUBJ_ALPHA4, 7, 2, "c12g", roots=[["[", "a", "\\", "-", "a"], ["[", "!", "a", "\\", "-", "a"], ["[", "\\", "!", "\\", "-", "\\", "]"]])
+    sizes.append(dict(family="c12g (escaped - ! ] inside brackets)", patterns=n, subjects=s, max_pattern_len=7, max_subject_len=2))
     n, s = family(R, PAT_ALPHA5, SUBJ_ALPHA5, 5 if R.tier == "quick" else 6, 2, "c12e", roots=ROOTS5)
     sizes.append(dict(family="c12e (character classes)", patterns=n, subjects=s, max_pattern_len=5 if R.tier == "quick" else 6, max_subject_len=2))
     n, s = family(R, PAT_ALPHA + ["[:alpha:]", "U1"], SUBJ_ALPHA + ["U1"], 8, 2, "c12r", simulate=4 if R.tier == "quick" else 150)
